@@ -589,8 +589,14 @@ class Prop(Check):
             except Exception as e:
                 return {"acc": None, "other": type(e).__name__, "msg": str(e)[:200]}
 
-        obs = {"compiler": with_timeout(compiler, 10), "direct": with_timeout(direct, 10),
-               "tx": with_timeout(selfhosted, 10), "len": len(text)}
+        # hang detection, not a performance requirement: on an overloaded machine the limit grows with the load
+        # (beyond CASE_TIMEOUT the runner's own alarm fires and the case is retried alone with a 6x limit)
+        try:
+            lim = 10 * max(1.0, min(6.0, os.getloadavg()[0] / (os.cpu_count() or 1)))
+        except OSError:
+            lim = 10
+        obs = {"compiler": with_timeout(compiler, lim), "direct": with_timeout(direct, lim),
+               "tx": with_timeout(selfhosted, lim), "len": len(text)}
         obs["rows"] = token_rows(toks, text)
         return obs
 
@@ -603,8 +609,9 @@ class Prop(Check):
         req = {"repo": REPO, "history": case.get("history", []), "opts": case.get("opts", {}), "texts": case["texts"]}
         worker = os.path.join(os.path.dirname(os.path.dirname(os.path.abspath(__file__))), "c24_worker.py")
         env = dict(os.environ, PYTHONHASHSEED="0", PYTHONDONTWRITEBYTECODE="1")
-        p = subprocess.run([sys.executable, worker], input=json.dumps(req), capture_output=True, text=True, env=env,
-                           timeout=max(20, self.CASE_TIMEOUT - 5))
+        # no timeout of its own: the runner's per-case alarm interrupts (subprocess.run then kills the child) and
+        # the runner retries a timed-out case alone with a 6x limit
+        p = subprocess.run([sys.executable, worker], input=json.dumps(req), capture_output=True, text=True, env=env)
         if p.returncode != 0 or not p.stdout.strip():
             return {"hist": True, "worker_error": f"exit {p.returncode}: {(p.stderr or '')[-400:]}"}
         out = json.loads(p.stdout)
